@@ -176,17 +176,20 @@ theorem cubicKnots_NATURAL (a d : K) (mid : List K) :
   simp only [e0, e9, bind, Except.bind, pure, Except.pure, bFREE, bNATURAL, bHERMITE, bPERIODIC]
   simp [List.replicate]
 
-/-- The uniqueness statement for the natural spline, in specification terms: a cubic spline on the
-NATURAL knot vector that vanishes at all data parameters and has vanishing second derivative at both
-ends has zero coefficients. -/
-def NaturalUnique (a d : K) (mid : List K) : Prop :=
+/-- The uniqueness statement in specification terms: a cubic spline on the clamped knot vector
+`t₀⁴, t₁ … t_{n−2}, t_{n−1}⁴` that vanishes at all data parameters and whose `e0`-th derivative at the
+start and `e1`-th derivative at the end vanish has zero coefficients. -/
+def ClampedUnique (a d : K) (mid : List K) (e0 e1 : ℕ) : Prop :=
   ∀ y : ℕ → K,
     (∀ i < mid.length + 2, ∑ j ∈ range (mid.length + 4),
       B (effSide (natBasis a d mid) ((a :: (mid ++ [d])).getD i 0) true) (natBasis a d mid).kn 3 j
         ((a :: (mid ++ [d])).getD i 0) * y j = 0) →
-    ∑ j ∈ range (mid.length + 4), dB .right (natBasis a d mid).kn 3 j 2 a * y j = 0 →
-    ∑ j ∈ range (mid.length + 4), dB .left (natBasis a d mid).kn 3 j 2 d * y j = 0 →
+    ∑ j ∈ range (mid.length + 4), dB .right (natBasis a d mid).kn 3 j e0 a * y j = 0 →
+    ∑ j ∈ range (mid.length + 4), dB .left (natBasis a d mid).kn 3 j e1 d * y j = 0 →
     ∀ j < mid.length + 4, y j = 0
+
+/-- Uniqueness of the natural spline (`s'' = 0` at both ends). -/
+abbrev NaturalUnique (a d : K) (mid : List K) : Prop := ClampedUnique a d mid 2 2
 
 /-- `cubic_curve(x, NATURAL, t)` succeeds whenever the natural spline is unique. -/
 theorem cubicCurve_NATURAL_ok_of_unique (a d : K) (mid : List K) (tol rt atl : K) (htol : 0 < tol)
@@ -314,6 +317,132 @@ theorem cubicCurve_NATURAL_ok_of_unique (a d : K) (mid : List K) (tol rt atl : K
   unfold cubicCurve
   simp only [hsys, bind, Except.bind, pure, Except.pure]
   rw [if_neg (by rw [hNsize, hnf, hshapeR.1]; simp), hcp]
+
+/-- `cubic_curve` with the clamped knot vector `t₀⁴, t₁ … t_{n−2}, t_{n−1}⁴` and one derivative row of
+order `e0` at the start and `e1` at the end (NATURAL, TANGENT, TANGENTNATURAL) succeeds whenever the
+corresponding spline is unique. -/
+theorem cubicCurve_clamped_ok (bd e0 e1 : ℕ) (hbd : bd ≠ bPERIODIC) (he0 : e0 < 4) (he1 : e1 < 4)
+    (a d : K) (mid : List K) (tol rt atl : K) (htol : 0 < tol)
+    (hgap : ∀ i j, i < j → j < mid.length + 2 →
+      (a :: (mid ++ [d])).getD i 0 + tol ≤ (a :: (mid ++ [d])).getD j 0)
+    (huniq : ClampedUnique a d mid e0 e1)
+    (x : Mat K) (m : ℕ) (hxs : x.size = mid.length + 2 ∧ ∀ i, i < mid.length + 2 → (x.getD i #[]).size = m)
+    (tg : Option (Mat K)) (eR : Mat K)
+    (hkn : cubicKnots bd (a :: (mid ++ [d])) = .ok ([a, a, a] ++ (a :: (mid ++ [d])) ++ [d, d, d]))
+    (hextra : cubicExtra bd (natBasis a d mid) tol (a :: (mid ++ [d])) m tg
+      = .ok (#[(natBasis a d mid).evaluate tol a e0 true, (natBasis a d mid).evaluate tol d e1 true], eR))
+    (heR : eR.size = 2 ∧ ∀ i, i < 2 → (eR.getD i #[]).size = m) :
+    ∃ cp, cubicCurve bd tol rt atl x (a :: (mid ++ [d])) tg = .ok (natBasis a d mid, cp) ∧
+      cp.size = mid.length + 4 ∧ ∀ i, i < mid.length + 4 → (cp.getD i #[]).size = m := by
+  set t := a :: (mid ++ [d]) with ht
+  set b := natBasis a d mid with hb
+  have hv : b.Valid := natBasis_valid a d mid tol hgap htol
+  have hper : b.periodic = -1 := rfl
+  have hnf : b.numFunctions = mid.length + 4 := natBasis_numFunctions a d mid
+  have htl : t.length = mid.length + 2 := by rw [ht]; simp
+  have hne : bd ≠ bPERIODIC := hbd
+  have hclose : cubicClose bd rt atl x = x := by unfold cubicClose; simp [hne]
+  have hmk : Basis.mk? 4 ([a, a, a] ++ t ++ [d, d, d]).toArray (-1) tol = .ok b :=
+    Basis.mk?_of_valid hv tol htol.le
+  set eN : Mat K := #[b.evaluate tol a e0 true, b.evaluate tol d e1 true] with heN
+  have hx0 : (x.getD 0 #[]).size = m := hxs.2 0 (by omega)
+  have hsys : cubicSystem bd tol rt atl x t tg
+      = .ok (b, colloc b tol t 0 ++ eN, x ++ eR) := by
+    unfold cubicSystem
+    simp only [hclose, bind, Except.bind, pure, Except.pure, hne, if_false, hkn, hmk, hx0, hextra]
+    rw [if_neg (by rw [htl, hxs.1]; simp)]
+  set N := colloc b tol t 0 ++ eN with hN
+  set rhs := x ++ eR with hrhs
+  have heNs : eN.size = 2 := by rw [heN]; rfl
+  have hNsize : N.size = mid.length + 4 := by rw [hN, Array.size_append, size_colloc, htl, heNs]
+  -- rows of N
+  have hrowI : ∀ i < mid.length + 2, ∀ j, N.get i j = (b.evaluate tol (t.getD i 0) 0 true).getD j 0 := by
+    intro i hi j
+    rw [hN, Mat.get_append_left_c14 _ _ _ _ (by rw [size_colloc, htl]; exact hi),
+      get_colloc b tol t 0 i j (by rw [htl]; exact hi)]
+  have hrowA : ∀ j, N.get (mid.length + 2) j = (b.evaluate tol a e0 true).getD j 0 := by
+    intro j
+    have := Mat.get_append_right_c14 (colloc b tol t 0) (eN) 0 j
+    rw [size_colloc, htl] at this
+    rw [hN, show mid.length + 2 = mid.length + 2 + 0 by omega, this, heN]
+    simp [Mat.get, Array.getD]
+  have hrowD : ∀ j, N.get (mid.length + 3) j = (b.evaluate tol d e1 true).getD j 0 := by
+    intro j
+    have := Mat.get_append_right_c14 (colloc b tol t 0) (eN) 1 j
+    rw [size_colloc, htl] at this
+    rw [hN, show mid.length + 3 = mid.length + 2 + 1 by omega, this, heN]
+    simp [Mat.get, Array.getD]
+  have hshapeN : N.size = mid.length + 4 ∧ ∀ i, i < mid.length + 4 → (N.getD i #[]).size = mid.length + 4 := by
+    refine ⟨hNsize, fun i hi => ?_⟩
+    rw [hN]
+    by_cases h1 : i < mid.length + 2
+    · have : (colloc b tol t 0 ++ eN).getD i #[] = (colloc b tol t 0).getD i #[] := by
+        simp [Array.getD, size_colloc, htl, h1, Array.getElem_append_left, Nat.lt_add_right]
+      rw [this, row_colloc b tol t 0 i (by rw [htl]; exact h1), size_evaluate_c14, hnf]
+    · obtain ⟨r, rfl⟩ : ∃ r, i = mid.length + 2 + r := ⟨i - (mid.length + 2), by omega⟩
+      have hr : r < 2 := by omega
+      have : (colloc b tol t 0 ++ eN).getD (mid.length + 2 + r) #[]
+          = (eN).getD r #[] := by
+        have hs : (colloc b tol t 0).size = mid.length + 2 := by rw [size_colloc, htl]
+        simp [Array.getD, hs, heNs, hr, Array.getElem_append_right]
+      rw [this, heN]
+      interval_cases r <;> simp [Array.getD, size_evaluate_c14, hnf]
+  have hshapeR : rhs.size = mid.length + 4 ∧ ∀ i, i < mid.length + 4 → (rhs.getD i #[]).size = m := by
+    refine ⟨by rw [hrhs, Array.size_append, hxs.1, heR.1], fun i hi => ?_⟩
+    rw [hrhs]
+    by_cases h1 : i < mid.length + 2
+    · have : (x ++ eR).getD i #[] = x.getD i #[] := by
+        simp [Array.getD, hxs.1, h1, Array.getElem_append_left, Nat.lt_add_right]
+      rw [this]; exact hxs.2 i h1
+    · obtain ⟨r, rfl⟩ : ∃ r, i = mid.length + 2 + r := ⟨i - (mid.length + 2), by omega⟩
+      have hr : r < 2 := by omega
+      have : (x ++ eR).getD (mid.length + 2 + r) #[] = eR.getD r #[] := by
+        simp [Array.getD, hxs.1, heR.1, hr, Array.getElem_append_right]
+      rw [this]; exact heR.2 r hr
+  -- injectivity from uniqueness of the natural spline
+  have hex := nat_exact a d mid tol hgap htol
+  have hdom := nat_in_domain a d mid tol hgap htol
+  have hstart := nat_start a d mid tol hgap htol
+  have hstop := nat_stop a d mid tol hgap htol
+  have hlt : a < d := by
+    have := hv.start_lt_stop; rw [← hb] at hstart hstop; rw [hstart, hstop] at this; exact this
+  have hinj : ∀ y : ℕ → K, (∀ i < mid.length + 4, ∑ j ∈ range (mid.length + 4), N.get i j * y j = 0) →
+      ∀ j < mid.length + 4, y j = 0 := by
+    intro y hy
+    apply huniq y
+    · intro i hi
+      refine (sum_congr rfl (fun j hj => ?_)).trans (hy i (by omega))
+      rw [hrowI i hi j, evaluate_inside_right hv hper htol (hex i hi) (hdom i hi).1 (hdom i hi).2
+        (by rw [hnf]; exact mem_range.mp hj)]
+      rfl
+    · refine (sum_congr rfl (fun j hj => ?_)).trans (hy (mid.length + 2) (by omega))
+      have hexa : b.ExactAt tol a := by have := hex 0 (by omega); simpa using this
+      rw [hrowA j, C01_value_deriv_open hv hper htol hexa (by rw [← hb] at hstart; rw [hstart])
+        (by rw [← hb] at hstop; rw [hstop]; exact hlt.le) (by simp) (by show e0 < 4; exact he0)
+        (by rw [hnf]; exact mem_range.mp hj)]
+      have : effSide b a true = .right := by
+        unfold effSide; rw [← hb] at hstop; rw [hstop, if_neg (ne_of_lt hlt)]; rfl
+      rw [this]; rfl
+    · refine (sum_congr rfl (fun j hj => ?_)).trans (hy (mid.length + 3) (by omega))
+      have hexd : b.ExactAt tol d := by
+        have := hex (mid.length + 1) (by omega)
+        have e : (a :: (mid ++ [d])).getD (mid.length + 1) 0 = d := by
+          simp [List.getD_eq_getElem?_getD, List.getElem?_append_right]
+        rw [e] at this; exact this
+      rw [hrowD j, C01_value_deriv_open hv hper htol hexd (by rw [← hb] at hstart; rw [hstart]; exact hlt.le)
+        (by rw [← hb] at hstop; rw [hstop]) (by simp) (by show e1 < 4; exact he1)
+        (by rw [hnf]; exact mem_range.mp hj)]
+      have : effSide b d true = .left := by
+        unfold effSide; rw [← hb] at hstop; rw [hstop, if_pos rfl]
+      rw [this]; rfl
+  obtain ⟨L, hL⟩ := left_inverse_of_injective_c14 (mid.length + 4) (fun i j => N.get i j) hinj
+  obtain ⟨cp, hcp⟩ := solveC_complete N rhs (mid.length + 4) m hshapeN hshapeR L hL
+  obtain ⟨sh1, sh2⟩ := solveC_shape (mid.length + 4) m hshapeN hshapeR hcp
+  refine ⟨cp, ?_, sh1, sh2⟩
+  unfold cubicCurve
+  simp only [hsys, bind, Except.bind, pure, Except.pure]
+  rw [if_neg (by rw [hNsize, hnf, hshapeR.1]; simp), hcp]
+
 
 end Interp
 end Splipy
